@@ -17,7 +17,8 @@ Compared with the Lean mirror (lean/Driver/C15.lean — `Impl.BigMap.*` on typed
 Property oracle (independent of the mirror): one plain Python dict per slot, started from the on-chain contents / the
 literal; every observation must equal the dict's; the updates of each emitted entry, applied in order to the on-chain
 contents of its source, must give exactly the final dict of the stored slot; every update must carry base58
-`expr`(Blake2b-256(0x05 ‖ legacy-packed key)) recomputed here with hashlib and a local Micheline forger; no key twice;
+`expr`(Blake2b-256(0x05 ‖ legacy-packed key)) recomputed here with hashlib and a local Micheline forger (the packed
+bytes of every key are also compared, with this forger and with the mirror `Impl.BigMap.packLegacy`); no key twice;
 pytezos' own reading of the emitted diff (`merge_lazy_diff`) must show the same updates."""
 import functools
 import hashlib
@@ -703,12 +704,37 @@ def regressions():
     ]
 
 
+def check_packs(ctx, packs, model):
+    from pytezos.michelson.types.base import MichelsonType
+    cls = {}
+    reported = 0
+    for i, (t, k) in enumerate(packs):
+        if t not in cls:
+            cls[t] = MichelsonType.match(G.ty_expr(t))
+        try:
+            got = cls[t].from_micheline_value(G.to_micheline(k)).pack(legacy=True).hex()
+        except Exception as ex:      # noqa: BLE001
+            got = f'raise {type(ex).__name__}'
+        ctx.case({'pack': G.ty_text(t), 'key': G.to_text(k)}, nontrivial=not isinstance(t, str))
+        ctx.count('pack_key_type', t if isinstance(t, str) else t[0])
+        want = (b'\x05' + forge_key(k)).hex()
+        if got != want and reported < 10:
+            reported += 1
+            ctx.violation(f'key_pack: {G.ty_text(t)} {G.to_text(k)}'[:300],
+                          f'pack(legacy=True) of the key is {got}, the legacy form (nested Pair, optimized leaves) is {want}',
+                          {'key_type': G.ty_text(t), 'key': G.to_text(k), 'observed': got, 'expected': want})
+        if model is not None and model[i] != got:
+            ctx.mismatch('pack', {'key_type': G.ty_text(t), 'key': G.to_text(k)}, got, model[i])
+
+
 def run(ctx):
     status = extract.generate(PROP)
     # the typed-key theorems rest on the C03 mirror of __eq__ / __lt__: its tables are re-read from the source as well
     # (listed as `dep:C03 …`: obligations of the dependency, re-checked here because a comparison method that changes shape
     # re-opens `C15.key_order_strictTotal` and with it every `typed_*` theorem)
     status.update({f'dep:C03 {k}': v for k, v in extract.generate('C03').items()})
+    # … and `Impl.BigMap.packLegacy` writes bytes with C05's binary Micheline writer (primitive tags read from the source)
+    status.update({f'dep:C05 {k}': v for k, v in extract.generate('C05').items()})
     ctx.prepare_lean(status)
     quick = ctx.tier == 'quick'
     max_len = 25 if quick else 200
@@ -738,7 +764,17 @@ def run(ctx):
         cases.append(c)
         n_ex += 1
     ctx.extra['exhaustive_subspace'] = {'cases': n_ex, 'keys': 3, 'on_chain_subsets': 8, 'max_len': 3 if quick else 5}
-    model = ctx.model([model_line(c) for c in cases])
+    # second stream: the bytes that are hashed for a key (`key.pack(legacy=True)`), every key of every random universe once
+    packs, seen_keys = [], set()
+    for c in cases[:len(cases) - n_ex]:
+        for k in c['keys']:
+            if (c['t'], k) not in seen_keys:
+                seen_keys.add((c['t'], k))
+                packs.append((c['t'], k))
+    lines = [model_line(c) for c in cases] + ['pack ' + ' '.join(G.ty_tokens(t) + G.val_tokens(k)) for t, k in packs]
+    model_all = ctx.model(lines)
+    model = None if model_all is None else model_all[:len(cases)]
+    check_packs(ctx, packs, None if model_all is None else model_all[len(cases):])
     shrunk = 0
     for i, case in enumerate(cases):
         res = run_impl(case)
